@@ -1755,14 +1755,12 @@ static inline int32_t sign (const T a)
 
 template <size_t K>
 Integer& Caster(Integer& t, const RecInt::ruint<K>& n) {
-    RecInt::ruint_to_mpz_t(t.get_mpz(), n);
-    return t;
+    return t = Integer(n);
 }
 
 template <size_t K>
 Integer& Caster(Integer& t, const RecInt::rint<K>& n) {
-    RecInt::rint_to_mpz_t(t.get_mpz(), n);
-    return t;
+    return t = Integer(n);
 }
 
 template <size_t K>
